@@ -43,7 +43,7 @@ CHECKS = {
  "C14": dict(
    text="Invariant + determinism monitor on validation results: non-empty error lists, JSON error locations that resolve in the document, distinguishable error kinds for malformed schema / malformed document / non-conforming document, and identical (verdict, ordered error list) between sequential repetitions, after unrelated calls, and from 8 concurrently released threads (overlap of calls is measured and reported).",
    note="Two known findings (malformed CBOR reported as CDDLParsing; relative JSON locations from nested validators). The crate has no shared mutable state of its own; TSan/Miri variants are described in DESIGN.md.",
-   technique="runtime invariant monitor + repetition/concurrency determinism monitor with measured overlap",
+   technique="runtime invariant monitor + repetition/concurrency determinism monitor with measured overlap + history-independence monitor on sibling calls (fresh thread vs forward vs reverse order); thorough tier adds a ThreadSanitizer build of the harness (-Zsanitizer=thread -Zbuild-std) over 640 cases x 8 threads",
    design_ref="DESIGN.md section 3 C14"),
  "C16": dict(
    text="Comment monitor with unique ids: recognition half (every AST comment is exactly one printed comment, unchanged, attached once; ';' inside literals never yields a comment) on randomly placed comments; formatting half on curated placements that must survive formatting exactly (template half), plus event classification on random placements.",
